@@ -88,9 +88,11 @@ def spec_table(clock, fs_only):
 class Judge:
     """Per-cycle reference counter + hypothesis filter.  `observed` = indices of STROBES that are compared."""
 
-    def __init__(self, table, observed=(0, 1, 2), t0_known=True):
+    def __init__(self, table, observed=(0, 1, 2), t0_known=True, gated=False):
         self.table = table
         self.observed = observed
+        self.gated = gated              # receiver-style output: tx_allowed is passed on only while `armed`
+        self.armed = False              # armed by step(arm=1); disarmed by the first expected strobe
         self.alive = [(L, alt) for L in (0, 1) for alt in (0, 1)]
         self.first = {}                 # hypothesis -> first mismatch
         self.last_start = 0             # latest start sampled at a cycle < t
@@ -116,13 +118,20 @@ class Judge:
             out.append((int(cnt == nmin), int(cnt == nmax), int(cnt == nrx)))
         return out
 
-    def step(self, t, start, speed, obs):
+    def step(self, t, start, speed, obs, arm=0):
         """obs = tuple of 3 sampled strobes (unobserved entries ignored); returns True if the cycle was judged."""
         if self.prev_speed is not None and speed != self.prev_speed:
             self.last_inval = max(self.last_inval, t)
         self.prev_speed = speed
         cnt = t - self.last_start - 1
         x = self.expected(speed, cnt)
+        if self.gated and x is not None:
+            if not self.armed:
+                x = [(0, 0, 0), (0, 0, 0)]
+            elif x[0][0]:
+                self.armed = False
+        if arm:
+            self.armed = True
         judged = x is not None and self.xprev is not None and self.last_inval <= self.rel_start
         if judged and self.alive:
             self.judged += 1
@@ -178,17 +187,17 @@ class DualJudge:
     every cycle.  Any behaviour that the shadow cannot explain either is reported under its own mechanism name.
     """
 
-    def __init__(self, table, observed=(0, 1, 2), t0_known=True):
-        self.p = Judge(table, observed, t0_known)
-        self.s = Judge(ls_as_hs(table), observed, t0_known)
+    def __init__(self, table, observed=(0, 1, 2), t0_known=True, gated=False):
+        self.p = Judge(table, observed, t0_known, gated)
+        self.s = Judge(ls_as_hs(table), observed, t0_known, gated)
 
     def invalidate(self, t):
         self.p.invalidate(t)
         self.s.invalidate(t)
 
-    def step(self, t, start, speed, obs):
-        j = self.p.step(t, start, speed, obs)
-        self.s.step(t, start, speed, obs)
+    def step(self, t, start, speed, obs, arm=0):
+        j = self.p.step(t, start, speed, obs, arm)
+        self.s.step(t, start, speed, obs, arm)
         return j
 
     def verdict(self, res, prefix, ctx):
@@ -594,7 +603,7 @@ def case_rxdata(rng, tier, res):
     b = Bench(dut, domain="usb", freq=clock, max_cycles=60000)
     rfr = dut.receiver.ready_for_response
     b.watch(dut.speed, utmi.rx_active, utmi.rx_valid, utmi.rx_data, rfr, dut.extra.start, dut.receiver.packet_complete)
-    judge = DualJudge(table, observed=(0,), t0_known=False)
+    judge = DualJudge(table, observed=(0,), t0_known=False, gated=True)
     res.desc = {"kind": "rxdata", "config": cfg, "packets": []}
     res.sig("rxdata", cfg)
     st = {"prev_active": 0, "cur_start": False, "ready": 0, "extra_judged": True}
@@ -610,12 +619,14 @@ def case_rxdata(rng, tier, res):
             else:
                 judge.invalidate(t)
         st["prev_active"] = act
+        arm = start
         if b.get(dut.extra.start):
-            start = 1
-            if not st["extra_judged"]:
-                judge.invalidate(t)
+            if st["extra_judged"]:
+                start = 1
+            else:
+                judge.invalidate(t)      # receiver is not waiting: its ready strobe is gated off, nothing to judge
         r = b.get(rfr)
-        if judge.step(t, start, b.get(dut.speed), (r, 0, 0)):
+        if judge.step(t, start, b.get(dut.speed), (r, 0, 0), arm):
             res.event("cycles_judged")
             if r:
                 st["ready"] += 1
@@ -634,14 +645,16 @@ def case_rxdata(rng, tier, res):
             if b.cycle > 50000:
                 break
             if rng.random() < 0.25:
-                new = rng.choice(speeds) if cfg == "60" else rng.choice([FS, FS, HS, LS])
+                # fs_only configurations stay at full speed: at any other speed their timer never fires and the
+                # receiver would (legitimately, outside the property) wait forever
+                new = rng.choice(speeds)
                 if new != speed:
                     speed = new
                     b.set(dut.speed, speed)
                     res.sig("speed", speed)
                     for _ in range(rng.randint(0, 3)):
                         yield
-            nmin = table.get(speed, table[FS])[0]
+            nmin = table[speed][0]
             gp = rng.choice(GAP_PROFILES)
             trail = rng.choice([0, 0, 0, 1, 2, 3])
             if rng.random() < 0.65:
@@ -743,7 +756,7 @@ def case_device(rng, tier, res):
     b.watch(*sigs)
     j_timer = DualJudge(table)                                   # shared device timer
     j_tok = DualJudge(table, observed=(0,))                      # token detector's private timer
-    j_rx = DualJudge(table, observed=(0,), t0_known=False)       # receiver's gated ready strobe
+    j_rx = DualJudge(table, observed=(0,), t0_known=False, gated=True)   # receiver's gated ready strobe
     res.desc = {"kind": "device", "config": cfg, "packets": []}
     res.sig("device", cfg)
     st = {"prev_active": 0, "cur": None, "rx_judged_extra": True, "ready": 0, "settled": False}
@@ -767,8 +780,10 @@ def case_device(rng, tier, res):
                 j_tok.invalidate(t); j_timer.invalidate(t); j_rx.invalidate(t)
         st["prev_active"] = act
         spy_start = b.get(spy.start)
+        rx_spy_start = spy_start
         if spy_start and not st["rx_judged_extra"]:
-            j_rx.invalidate(t)
+            j_rx.invalidate(t)           # receiver is not waiting: its ready strobe is gated off, nothing to judge
+            rx_spy_start = 0
         if tok_start or data_start or spy_start:
             res.event("starts")
         obs = (b.get(ifc.timer.tx_allowed), b.get(ifc.timer.tx_timeout), b.get(ifc.timer.rx_timeout))
@@ -783,7 +798,7 @@ def case_device(rng, tier, res):
             res.event("device_token_ready_seen")
             st["ready"] += 1
         r = b.get(ifc.rx_ready_for_response)
-        if j_rx.step(t, int(data_start or spy_start), sp, (r, 0, 0)) and r:
+        if j_rx.step(t, int(data_start or rx_spy_start), sp, (r, 0, 0), data_start) and r:
             res.event("device_rx_ready_seen")
             st["ready"] += 1
 
